@@ -11,20 +11,16 @@ TB_REAL = ("Coq 8.16.1 kernel + vm_compute (also inside the `interval` tactic); 
            "functional_extensionality_dep, classic) as printed by Print Assumptions; hand-written Coq model over R tied to /repo by the correspondence "
            "harness (float64 outputs vs the exact model, rigorous interval enclosure in Coq); IEEE round-off and libm not modelled; PyTorch modelled, not verified")
 
-CHECKS = {
-    "C01": dict(
-        category="proof",
-        text=("Coq proof, for every element tree, ordering, nesting and both beam types, that Segment.track (the literal `todos` grouping algorithm, "
-              "one merged map per maximal skippable run evaluated at the run's entrance energy) equals tracking the elements one after another; "
-              "flattening, nesting, cutting into sub-cells, subcell slicing and lengths likewise. The proof is modulo an explicit leaf contract "
-              "(a skippable leaf tracks by its own transfer map and keeps the energy), which is proved for the executable integer instance and "
-              "checked against every real element class on each run. The model is tied to the code by exact differential runs (vm_compute) on "
-              "random integer-valued lattices."),
-        design_ref="DESIGN.md 5/C01",
-        note=TB_STRUCT,
-        technique="Coq proof by induction on element trees + vm_compute correspondence against Segment",
-    ),
-}
+def load_checks():
+    """one JSON fragment per claimed property: harness/manifest.d/<id>.json with keys
+    category, text, design_ref, note, technique"""
+    out = {}
+    for f in sorted((VERIF / "harness" / "manifest.d").glob("C*.json")):
+        out[f.stem] = json.loads(f.read_text())
+    return out
+
+
+CHECKS = load_checks()
 
 NOT_YET = "check not built yet in this revision of /verif (see DESIGN.md section 5 for the planned proof); not claimed"
 
@@ -65,6 +61,9 @@ def main():
 
 
 CHECKS_NA = {}
+_na = VERIF / "harness" / "manifest.d" / "not_applicable.json"
+if _na.exists():
+    CHECKS_NA = json.loads(_na.read_text())
 
 if __name__ == "__main__":
     main()
